@@ -11,6 +11,7 @@
 #include "galois/graphs/LC_CSR_CSC_Graph.h"
 #include "galois/graphs/LC_Adaptor_Graph.h"
 #include "galois/runtime/PagePool.h"
+#include "galois/substrate/HWTopo.h"
 
 #include <array>
 #include <map>
@@ -40,12 +41,15 @@ namespace gg = galois::graphs;
 
 // ---------------------------------------------------------------------------
 // Runtime.  Created lazily in the worker (threads do not survive fork).  The
-// thread pool sizes itself from the CPUs the process may run on; only T <= 4
-// is needed, and with a 16-thread pool per worker every
-// FileGraph::fromFileInterleaved would wake 16 threads, so the pool is created
-// while the affinity mask is narrowed to 4 CPUs; the mask of every pool thread
-// is widened again afterwards (threads are not bound:
-// GALOIS_DO_NOT_BIND_THREADS).
+// thread pool sizes itself from the CPUs the process may run on (HWTopo reads
+// Cpus_allowed_list once and caches the answer); only T <= 4 is needed, and
+// with a 16-thread pool per worker every FileGraph::fromFileInterleaved would
+// wake 16 threads.  So the topology is computed while the affinity mask is
+// narrowed to 4 CPUs -- the CPU we are running on plus three more, so that not
+// even this thread has to migrate -- and the mask is restored BEFORE the pool
+// threads are created (creating them under a narrow mask stalls for minutes
+// when those CPUs are occupied by somebody's busy-polling processes).  Pool
+// threads are not bound (GALOIS_DO_NOT_BIND_THREADS).
 // ---------------------------------------------------------------------------
 inline void rt() {
   static galois::SharedMemSys* G = nullptr;
@@ -55,21 +59,21 @@ inline void rt() {
   CPU_ZERO(&all);
   CPU_ZERO(&few);
   sched_getaffinity(0, sizeof all, &all);
+  int cur = sched_getcpu();
+  if (cur < 0 || !CPU_ISSET(cur, &all))
+    cur = 0;
   int k = 0;
-  for (int c = 0; c < CPU_SETSIZE && k < 4; ++c)
+  for (int i = 0; i < CPU_SETSIZE && k < 4; ++i) {
+    int c = (cur + i) % CPU_SETSIZE;
     if (CPU_ISSET(c, &all)) {
       CPU_SET(c, &few);
       ++k;
     }
+  }
   sched_setaffinity(0, sizeof few, &few);
-  G        = new galois::SharedMemSys();
-  auto& tp = galois::substrate::getThreadPool();
-  std::vector<pid_t> ostid(tp.getMaxThreads(), 0);
-  tp.run(tp.getMaxThreads(), [&ostid]() {
-    ostid[galois::substrate::ThreadPool::getTID()] = (pid_t)syscall(SYS_gettid);
-  });
-  for (pid_t t : ostid)
-    sched_setaffinity(t, sizeof all, &all);
+  (void)galois::substrate::getHWTopo(); // computed once, cached
+  sched_setaffinity(0, sizeof all, &all);
+  G = new galois::SharedMemSys();
 }
 
 inline void key_table_init();
